@@ -5,11 +5,13 @@ SPEC = dict(
     level_text="Runtime monitor over real transports: two nng sockets in one process exchange seeded messages over inproc/ipc/tcp/ws/socket-fd while a link-time interposer clamps nng's own sendmsg/send/writev/readv calls (dribble, random chunks, one cut at every stream offset for small frames, injected EAGAIN); the receiver regenerates the expected header and body of the i-th message and demands equality, order and no extras; ASan/UBSan and the guarded message/aio hooks watch the resume paths. Sampled for large frames, exhaustive single-cut enumeration for small ones.",
     level_note="Trusts the interposer to model only transfers a kernel could legally produce (short counts, EAGAIN); kernel behaviours it cannot fake are out of reach. Both peers are nng, so a symmetric framing error on both sides could cancel out (the raw-peer checks of C11/C16 cover the wire format).",
     technique="runtime end-to-end integrity monitor + short-I/O fault injection + ASan/UBSan",
-    rule="a case is (transport, protocol pair, cut plan, message list); messages have sizes from the boundary list {0,1,2,7,8,9,31,...,65537} or random; the cuts mode enumerates one cut at every absolute stream offset 1..90 (handshake + 3 small frames) on the send side and on the receive side for tcp/ipc/socket-fd x 5 protocol pairs (ws: offsets 1..700 in thorough); a class is (transport, pair, plan, which sides actually saw short transfers)",
+    rule="a case is (transport, protocol pair, cut plan, message list); messages have sizes from the boundary list {0,1,2,7,8,9,31,...,65537} or random; the cuts mode enumerates one cut at every absolute stream offset 1..120 (handshake + 3 small frames) on the send side and on the receive side for tcp/ipc/socket-fd x 5 protocol pairs (ws: offsets 130..430 for pair1 in quick, 1..700 for all pairs in thorough); sampled ws cases set NNG_OPT_WS_SENDMAXFRAME to {1,2,16,125,126,127,1000} on both ends so that messages are fragmented, and a third of the sampled cases use the aio forms of send/receive; a class is (transport, pair, plan, which sides actually saw short transfers)",
     assumptions=["loopback kernel sockets", "interposed sendmsg/send/writev/readv are the only stream I/O calls of the posix platform layer"],
     quick=dict(runs=[R("c01_integrity", "asan", 8, 0, "cuts", 600),
-                     R("c01_integrity", "asan", 8, 40, "sampled", 600)],
-               floor={"verified": 3000, "short_sends": 200, "short_recvs": 200, "@classes": 100},
+                     R("c01_integrity", "asan", 8, 60, "sampled", 600)],
+               floor={"verified": 3000, "short_sends": 200, "short_recvs": 200, "@classes": 100,
+                      "verified_ws": 300, "verified_sockfd": 300, "verified_inproc": 100, "verified_tcp": 300, "verified_ipc": 300,
+                      "ws_fragmented_msgs": 50, "verified_aio_form": 200, "extra_probes": 1000},
                eval_key="verified"),
     thorough=dict(runs=[R("c01_integrity", "asan", 16, 0, "cuts", 3000),
                         R("c01_integrity", "asan", 16, 400, "sampled", 3000),
